@@ -497,6 +497,16 @@ class Core(composites.Composite):
         """
         from armi.reactor.reactors import Reactor
 
+        spatialLocator = spatialLocator or a.spatialLocator
+
+        if spatialLocator is not None and spatialLocator in self.childrenByLocator:
+            raise ValueError(
+                "Cannot add {} because location {} is already filled by {}."
+                "".format(
+                    a.getName(), spatialLocator, self.childrenByLocator[spatialLocator]
+                )
+            )
+
         # Negative assembly IDs are placeholders, and we need to renumber the assembly
         if a.p.assemNum < 0:
             a.renumber(self.r.incrementAssemNum())
@@ -513,16 +523,6 @@ class Core(composites.Composite):
         runLog.debug("Adding   {0} to {1}".format(a, self))
         composites.Composite.add(self, a)
         aName = a.getName()
-
-        spatialLocator = spatialLocator or a.spatialLocator
-
-        if spatialLocator is not None and spatialLocator in self.childrenByLocator:
-            raise ValueError(
-                "Cannot add {} because location {} is already filled by {}."
-                "".format(
-                    aName, a.spatialLocator, self.childrenByLocator[a.spatialLocator]
-                )
-            )
 
         if spatialLocator is not None:
             # transfer spatialLocator to Core one
